@@ -275,20 +275,31 @@ def bool_call_edges(body, prog, names, value, arg_pred=None):
 def enum_edges(body, prog, adt, variants_pred, src_pred=None):
     """edges on which a value of enum `adt` is known to be in a variant set satisfying variants_pred:
     switches on the discriminant, and `x == Adt::V` / `x != Adt::V` tests (derived PartialEq)"""
-    QMARK = {"std::option::Option": ("<std::option::Option<T> as std::ops::Try>::branch", {"Continue": "Some", "Break": "None"}),
-             "std::result::Result": ("<std::result::Result<T, E> as std::ops::Try>::branch", {"Continue": "Ok", "Break": "Err"})}
+    # the success / failure vocabulary of the three std carriers: a value that started as Option<T> may be tested as the Result made
+    # from it by ok_or(..) or as the ControlFlow made by `?` — same outcome, different variant names
+    SUCC = {"std::option::Option": "Some", "std::result::Result": "Ok", "std::ops::ControlFlow": "Continue"}
+    FAIL = {"std::option::Option": "None", "std::result::Result": "Err", "std::ops::ControlFlow": "Break"}
 
     def pred(c, vs, leaf):
         if c.kind != "enum":
             return False
-        if c.adt == "std::ops::ControlFlow" and adt in QMARK and c.place is not None and not c.place["p"]:
-            # `x?`: the switch is on Try::branch(x); Continue is x's success variant, Break its failure variant
-            ds = [r for r in body.defs().get(c.place["l"], []) if r[0] == "call"]
-            if len(ds) == 1 and QMARK[adt][0] in C.callee_names(ds[0][2]):
-                if src_pred and not src_pred(c):
+        if c.adt != adt and adt in SUCC and c.adt in SUCC and c.adt != adt:
+            if c.adt == "std::ops::ControlFlow":
+                # `x?`: the switch is on Try::branch(x)
+                if c.place is None or c.place["p"]:
                     return False
-                return variants_pred({QMARK[adt][1].get(v, v) for v in vs})
-            return False
+                ds = [r for r in body.defs().get(c.place["l"], []) if r[0] == "call"]
+                if len(ds) != 1 or not C.is_try_branch(ds[0][2]):
+                    return False
+                src_adt = "std::option::Option" if "option::Option" in C.callee_name(ds[0][2]) else "std::result::Result"
+                if src_adt != adt and src_pred is None:
+                    return False
+            elif src_pred is None:
+                return False      # Option vs Result without a named source: not the value the caller means
+            if src_pred and not src_pred(c):
+                return False
+            tr = {SUCC[c.adt]: SUCC[adt], FAIL[c.adt]: FAIL[adt]}
+            return variants_pred({tr.get(v, v) for v in vs})
         if c.adt != adt:
             return False
         if src_pred and not src_pred(c):
@@ -434,6 +445,26 @@ def is_empty_text(l):
     if l.kind == "call":
         return C.callee_name(l.data) in EMPTY_STRING_CALLS
     return False
+
+
+def root_local(b, op, depth=10):
+    """the local a `&mut v` / `&v` / moved operand refers to (followed through single-definition refs and moves)"""
+    p = C.op_place(op)
+    seen = set()
+    while p is not None and p["l"] not in seen and depth > 0:
+        depth -= 1
+        seen.add(p["l"])
+        ds = [r for r in b.defs().get(p["l"], []) if r[0] in ("assign", "call")]
+        if len(ds) != 1 or ds[0][0] != "assign":
+            break
+        rv = ds[0][3]["rv"]
+        if rv["k"] in ("ref", "copyforderef", "rawptr"):
+            p = rv["pl"]
+        elif rv["k"] == "use" and C.op_place(rv["op"]) is not None:
+            p = C.op_place(rv["op"])
+        else:
+            break
+    return p["l"] if p is not None else None
 
 
 def has_const(leaves, value):
